@@ -25,7 +25,12 @@ __CPROVER_ensures(__CPROVER_is_fresh(RET, sizeof(Arr)) && RET->cap == n && RET->
 #define RI(s) (POW2((s)->_capacity) && (s)->_mask == (s)->_capacity - 1 && (s)->_storage->cap == (s)->_capacity && SIZE(s) <= (s)->_capacity && (s)->_capacity <= (((size_t)1) << 61) && POW2((s)->_initial_capacity) && (s)->_initial_capacity <= (s)->_capacity)
 /* the tracked physical slot holds the element at logical position k */
 #define AT(s, k) ((s)->_storage->g_p == (((s)->_reader_pos + (k)) & (s)->_mask))
-#define FRESHB(s) (__CPROVER_is_fresh(s, sizeof(*s)) && __CPROVER_is_fresh((s)->_storage, sizeof(Arr)))
+#ifdef REPLAY_FRIENDLY
+#define RF_(s) ((s)->_capacity <= 256)                /* replay-friendly counterexamples: a buffer the native replay can materialise */
+#else
+#define RF_(s) 1
+#endif
+#define FRESHB(s) (__CPROVER_is_fresh(s, sizeof(*s)) && __CPROVER_is_fresh((s)->_storage, sizeof(Arr)) && RF_(s))
 '''
 
 SIBS = ['size', 'empty', '_expand', 'capacity']
@@ -133,6 +138,8 @@ def unit(m, props):
         funcs=[dict(src=dict(header=H, cls='TransitEventBuffer', name=m), struct='TEB', src_params=[], cfun=SIGS[m].split('(')[0].split()[-1].lstrip('*'),
                     sig=SIGS[m], cls_c='TEB', siblings=SIBS, subscripts=SUBS, pre_rules=RULES.get(m, []), loops=LOOPS.get(m, {}), contract=CON[m])],
         harness='  TEB* b; %s(b);' % SIGS[m].split('(')[0].split()[-1].lstrip('*'),
+        **(dict(snapshot=[('cap', 'self->_capacity'), ('rpos', 'self->_reader_pos'), ('wpos', 'self->_writer_pos'), ('shrink', 'self->_shrink_requested ? 1 : 0'), ('init', 'self->_initial_capacity')],
+                replay=dict(template='teb.cpp', op=m.lstrip('_'), friendly='REPLAY_FRIENDLY')) if m in ('_expand', 'back', 'push_back', 'pop_front', 'front', 'try_shrink') else {}),
         dropped=DROPPED, trusted=TRUSTED, min_obligations=5)
 
 
